@@ -26,7 +26,7 @@
         ([C09_image_guard_needed]; the totality of the guarded entry points:
         [Properties/C17c.v]).  It WAS false for [quantify] / [cofactor]
         when the variables are given as LEVELS, which the second attempt read
-        against the new order; since dd commit a1c66f6 the public methods turn
+        against the new order; since dd commit 827d7f0 the public methods turn
         levels into names before they call the decorated workers
         ([C09_quantify_levels_fixed], [C09_cofactor_levels_fixed], and the
         general theorems in [Properties/C09d.v]);
@@ -68,7 +68,9 @@ Proof. exact (conj (fun H => H) (fun H => H)). Qed.
 (** The premise on sifting.  Started on a well-formed manager with exact
     counts and requests switched off, [reorder()] either hits the model's
     iteration-order oracle error (a recorded order that is not a permutation;
-    no Python counterpart) or succeeds, keeps the invariant and the counts
+    no Python counterpart), or — only with a bounded table — is stopped
+    between two swaps by the full-table pre-check of [swap] ([RuntimeError]),
+    or succeeds; in the last two cases it keeps the invariant and the counts
     with the same ledger, leaves requests off and the context flag alone,
     keeps the declared variables, and keeps every node the user HOLDS (same
     number) with the same function by name.  Nothing is claimed for the
@@ -80,7 +82,9 @@ Theorem C09_sifting_ok'_def :
     Inv s → Counts s L → last_len s = None →
     reorder None s = (r, s') →
     r = Err EOracle ∨
-    (r = Ok tt ∧ Inv s' ∧ Counts s' L ∧ last_len s' = None ∧ rctx s' = rctx s ∧
+    ((r = Ok tt ∨ (r = Err ERuntime ∧ is_Some (max_nodes s))) ∧
+     Inv s' ∧ Counts s' L ∧ last_len s' = None ∧ rctx s' = rctx s ∧
+     max_nodes s' = max_nodes s ∧
      dom (vars s') = dom (vars s) ∧
      ∀ u, u ≠ 0%Z → (absn u = 1%positive ∨ 0 < L (absn u)) → valid s u →
           valid s' u ∧ ∀ ρ, denv s' u ρ = denv s u ρ).
@@ -95,7 +99,9 @@ Theorem C09_sifting_ok_reach_def :
     Inv s → Counts s L → last_len s = None →
     reorder None s = (r, s') →
     r = Err EOracle ∨
-    (r = Ok tt ∧ Inv s' ∧ Counts s' L ∧ last_len s' = None ∧ rctx s' = rctx s ∧
+    ((r = Ok tt ∨ (r = Err ERuntime ∧ is_Some (max_nodes s))) ∧
+     Inv s' ∧ Counts s' L ∧ last_len s' = None ∧ rctx s' = rctx s ∧
+     max_nodes s' = max_nodes s ∧
      dom (vars s') = dom (vars s) ∧
      ∀ u, u ≠ 0%Z →
           (absn u = 1%positive ∨ reach (succ s) (fun k => 0 < L k) (absn u)) →
@@ -135,7 +141,8 @@ Theorem C09_op_spec_def {A} (func : MS A) (K : positive → Prop) Pre Post :
     Inv s' ∧ extends s s' ∧ frame s s' ∧ (∀ L, Counts s L → Counts s' L) ∧
     match r with
     | Ok a => Post s a s'
-    | Err e => e = ENeedsReordering ∧ is_Some (last_len s)
+    | Err e => (e = ENeedsReordering ∧ is_Some (last_len s)) ∨
+             (e = ERuntime ∧ is_Some (max_nodes s))
     end) ∧
   (∀ s s', Inv s → Inv s' → keeps K s s' → Pre s → Pre s') ∧
   (∀ s0 s a s', Inv s0 → Inv s → keeps K s0 s → Pre s0 → Post s a s' → Post s0 a s') ∧
@@ -145,7 +152,7 @@ Proof. exact (op_spec_unfold func K Pre Post). Qed.
 (** its two readings: requests off (total), inside a context (signal allowed) *)
 Theorem C09_op_spec_off {A} (func : MS A) K Pre Post :
   op_spec func K Pre Post →
-  ∀ s r s', Inv s → Pre s → last_len s = None → func s = (r, s') →
+  ∀ s r s', Inv s → Pre s → last_len s = None → max_nodes s = None → func s = (r, s') →
   ∃ a, r = Ok a ∧ Inv s' ∧ extends s s' ∧ frame s s' ∧
        (∀ L, Counts s L → Counts s' L) ∧ Post s a s'.
 Proof. exact (spec_off func K Pre Post). Qed.
@@ -156,7 +163,8 @@ Theorem C09_op_spec_on {A} (func : MS A) K Pre Post :
   Inv s' ∧ extends s s' ∧ frame s s' ∧ (∀ L, Counts s L → Counts s' L) ∧
   match r with
   | Ok a => Post s a s'
-  | Err e => e = ENeedsReordering ∧ is_Some (last_len s)
+  | Err e => (e = ENeedsReordering ∧ is_Some (last_len s)) ∨
+             (e = ERuntime ∧ is_Some (max_nodes s))
   end.
 Proof. exact (spec_on func K Pre Post). Qed.
 
@@ -172,7 +180,7 @@ Proof. exact (spec_on func K Pre Post). Qed.
 Theorem C09_decorator_correct {A} (func : MS A) Pre Post s L r s' :
   sifting_ok' →
   op_spec func (heldn L) Pre Post →
-  Inv s → Counts s L → Pre s → rctx s = false →
+  Inv s → Counts s L → Pre s → rctx s = false → max_nodes s = None →
   try_to_reorder func s = (r, s') →
   r = Err EOracle ∨
   ∃ a, r = Ok a ∧ Inv s' ∧ Counts s' L ∧ rctx s' = false ∧
@@ -185,7 +193,7 @@ Proof. exact (try_to_reorder_correct func Pre Post s L r s'). Qed.
 Theorem C09_decorator_no_signal {A} (func : MS A) Pre Post s L r s' :
   sifting_ok' →
   op_spec func (heldn L) Pre Post →
-  Inv s → Counts s L → Pre s → rctx s = false →
+  Inv s → Counts s L → Pre s → rctx s = false → max_nodes s = None →
   try_to_reorder func s = (r, s') →
   r ≠ Err ENeedsReordering.
 Proof. exact (try_to_reorder_no_signal func Pre Post s L r s'). Qed.
@@ -203,7 +211,7 @@ Proof. exact (ite_op_spec K g u v). Qed.
 (** ** [ite] *)
 Theorem C09_ite_dynamic s L g u v r s' :
   sifting_ok' →
-  Inv s → Counts s L → rctx s = false →
+  Inv s → Counts s L → rctx s = false → max_nodes s = None →
   valid s g → valid s u → valid s v →
   heldn L (absn g) → heldn L (absn u) → heldn L (absn v) →
   ite g u v s = (r, s') →
@@ -219,7 +227,7 @@ Proof. exact (ite_dynamic s L g u v r s'). Qed.
 (** ** [var] *)
 Theorem C09_var_dynamic s L name r s' :
   sifting_ok' →
-  Inv s → Counts s L → rctx s = false →
+  Inv s → Counts s L → rctx s = false → max_nodes s = None →
   is_Some (vars s !! name) →
   var name s = (r, s') →
   r = Err EOracle ∨
@@ -234,7 +242,7 @@ Proof. exact (var_dynamic s L name r s'). Qed.
     ([conn_sem]: the documented connective, as in C01) *)
 Theorem C09_apply_dynamic s L op u v w r s' f :
   sifting_ok' →
-  Inv s → Counts s L → rctx s = false →
+  Inv s → Counts s L → rctx s = false → max_nodes s = None →
   op ∈ py_vocab → conn_sem op = Some f →
   valid s u → ovalid s v → ovalid s w → arity_ok op v w = true →
   heldn L (absn u) → oref L v → oref L w →
@@ -266,7 +274,7 @@ Proof. exact (conj (conj (fun H => H) (fun H => H)) (conj (fun H => H) (fun H =>
 
 Theorem C09_quantify_dynamic s L u qvars fa r s' :
   sifting_ok' →
-  Inv s → Counts s L → rctx s = false →
+  Inv s → Counts s L → rctx s = false → max_nodes s = None →
   valid s u → heldn L (absn u) →
   Forall (fun k => is_Some (vars s !! k)) qvars →
   quantify u true qvars fa s = (r, s') →
@@ -296,7 +304,7 @@ Proof. exact eq_refl. Qed.
 
 Theorem C09_cofactor_dynamic s L u values r s' :
   sifting_ok' →
-  Inv s → Counts s L → rctx s = false →
+  Inv s → Counts s L → rctx s = false → max_nodes s = None →
   valid s u → heldn L (absn u) →
   Forall (fun p => is_Some (vars s !! p.1)) values →
   cofactor u true values s = (r, s') →
@@ -379,7 +387,7 @@ Example C09_apply_example :
 Proof. exact apply_dynamic_example. Qed.
 
 (** [quantify] (like [cofactor]) accepts LEVELS instead of names
-    ([_map_to_level]).  Before dd commit a1c66f6 the decorated method read the
+    ([_map_to_level]).  Before dd commit 827d7f0 the decorated method read the
     same integers a second time, against the new order: [\E level 0. f] was
     [\E v0. f] without the request and [\E v2. f] with it (this file used to
     contain that refutation).  The public methods now turn levels into names
